@@ -140,11 +140,15 @@ def generate_visual(chk, name, depth, simulate=None, timeout=900, **kw):
     return r, c
 
 
-def replay_visual(chk, name, r, c, kind, shards, focus, nt_key, voters=2, stride=1, extra=()):
-    args = vh_args(c, kind, shards, focus, voters) + ["--max-obs", str(c["MaxObs"]), "--min-track-len", str(c["MinTrackLen"]),
+def visual_args(c, kind, shards, focus, voters=2):
+    return vh_args(c, kind, shards, focus, voters) + ["--max-obs", str(c["MaxObs"]), "--min-track-len", str(c["MinTrackLen"]),
             "--min-votes", str(c["MinVotes"]), "--q-use", str(c["QUse"] / 100.0), "--q-collect", str(c["QCollect"] / 100.0),
             "--vis-thr", str(c["VisThr"] / 10.0), "--own-use", str(c["OwnUse"] / 100.0),
-            "--own-collect", str(c["OwnCollect"] / 100.0), "--min-area", str(c["MinArea"]), "--vis-kind", c["VisKind"]] + list(extra)
+            "--own-collect", str(c["OwnCollect"] / 100.0), "--min-area", str(c["MinArea"]), "--vis-kind", c["VisKind"]]
+
+
+def replay_visual(chk, name, r, c, kind, shards, focus, nt_key, voters=2, stride=1, extra=()):
+    args = visual_args(c, kind, shards, focus, voters) + list(extra)
     rep = vlib.run_vh(args, [r.out], stride=stride)
     rep["nontrivial"] = rep["counters"].get(nt_key, 0)
     chk.add_report(f"{name}:{kind}:shards={shards}", rep)
